@@ -1,9 +1,11 @@
 #!/bin/bash
-# tools/run_all.sh <seed> [tier] : runs every claimed check once, prints one line per check
+# tools/run_all.sh <seed> [tier] [ids...] : runs every claimed check (or the given ones) once, prints one line per check
 cd "$(dirname "$0")/.."
 mkdir -p work
 SEED=${1:-0}; TIER=${2:-quick}
-for P in $(python3 -c "import json; print(' '.join(c['property_id'] for c in json.load(open('MANIFEST.json'))['checks']))"); do
+LIST="${@:3}"
+[ -z "$LIST" ] && LIST=$(python3 -c "import json; print(' '.join(c['property_id'] for c in json.load(open('MANIFEST.json'))['checks']))")
+for P in $LIST; do
   s=$(date +%s)
   ./check $P --tier $TIER --seed $SEED > work/run_${P}_s${SEED}.log 2>&1; rc=$?
   e=$(date +%s)
